@@ -115,6 +115,15 @@ example : qform (buildRDW exStripes (1/8)) [1, -1, 0, 2, 0, -3] = 461/192 := by 
 example : ∃ I ∈ hatsND exStripes, (fun (I : List Hat1) => if I = [⟨1/4, 0, 1/2⟩, ⟨1/2, 0, 3/4⟩] then (1 : ℚ) else 0) I ≠ 0 :=
   ⟨[⟨1/4, 0, 1/2⟩, ⟨1/2, 0, 3/4⟩], by decide +kernel, by simp⟩
 
+/-- the hypotheses are jointly satisfiable: instantiation on the example grid -/
+example : 0 < qform (buildRDW exStripes (1/8)) ((hatsND exStripes).map
+    fun (I : List Hat1) => if I = [⟨1/4, 0, 1/2⟩, ⟨1/2, 0, 3/4⟩] then (1 : ℚ) else 0) :=
+  matrix_positive_definite exStripes exStripes_unit (1/8) (by norm_num) _
+    ⟨[⟨1/4, 0, 1/2⟩, ⟨1/2, 0, 3/4⟩], by decide +kernel, by simp⟩
+
+example : rValue [⟨1/4, 0, 1/2⟩, ⟨3/4, 1/2, 7/8⟩] [⟨1/2, 1/4, 1⟩, ⟨1/2, 0, 3/4⟩] = rValue [⟨1/2, 1/4, 1⟩, ⟨1/2, 0, 3/4⟩] [⟨1/4, 0, 1/2⟩, ⟨3/4, 1/2, 7/8⟩] :=
+  matrix_symmetric exStripes exStripes_unit _ _ (by decide +kernel) (by decide +kernel)
+
 /-- positive definiteness of the uniform component-grid matrix `build_R_matrix(levelvec)` -/
 theorem uniform_matrix_positive_definite (lv : List ℕ) (lam : ℚ) (hlam : 0 ≤ lam)
     (x : List Hat1 → ℚ) (hx : ∃ I ∈ hatsND (uStripes lv), x I ≠ 0) :
